@@ -20,7 +20,7 @@ func TestPropSolvency(t *testing.T) {
 	if drv.Thorough() {
 		every = 1
 	}
-	drv.Check(t, drv.Cfg{Name: "cl-solvency", Rule: rule, Quick: 200, Thorough: 4000, Steps: 30, TSteps: 60}, func(rt *rapid.T, c *drv.Case) {
+	drv.Check(t, drv.Cfg{Name: "cl-solvency", Rule: rule, Quick: 500, Thorough: 4000, Steps: 30, TSteps: 60}, func(rt *rapid.T, c *drv.Case) {
 		s := clsim.New(rt, t)
 		s.StrictExit = true
 		acts := s.Actions()
